@@ -558,11 +558,20 @@ def ev(t, rows, env: Env):
         conds = [(ev(c, rows, env), ev(v, rows, env)) for c, v in t[1]]
         default = ev(t[2], rows, env) if len(t) > 2 and t[2] is not None else Scalar(None)
         flat = [x for cv in conds for x in cv] + [default]
+        # the branches have a common type: in a float-typed case expression an integer branch
+        # yields floats
+        try:
+            to_float = typeof(t, env) == "float"
+        except (Reject, Disabled):
+            to_float = False
+
         def case(*xs):
+            r = xs[-1]
             for i in range(0, len(xs) - 1, 2):
                 if xs[i] is True:
-                    return xs[i + 1]
-            return xs[-1]
+                    r = xs[i + 1]
+                    break
+            return float(r) if to_float and isinstance(r, int) and not isinstance(r, bool) else r
         return _lift(case, flat, n)
     if h == "map":
         x = ev(t[1], rows, env)
@@ -1058,7 +1067,7 @@ class Model:
             if c not in st.visible:
                 raise Reject("ColumnNotFoundError", "re-select of a hidden column")
         if len(set(cids)) != len(cids):
-            raise Disabled("duplicate column in select")
+            raise Reject("ValueError", "a column is selected more than once")
         n = st.copy()
         n.visible = cids
         return n
